@@ -1,0 +1,6 @@
+//go:build !verif
+
+package syncer
+
+// verifYield is a no-op unless built with the "verif" tag (see verifhook_on.go).
+func verifYield(point string) {}
